@@ -263,6 +263,12 @@ theorem NoRep.finishCycle {s : Sys} (h : NoRep s) (kept : List (Nat × Ring Cmd)
   rw [cycleProcess_noReporter _ _ _ h.has]
   exact ⟨⟨h.ready, h.has, h.spans, h.ads, h.lines⟩, rfl⟩
 
+theorem NoRep.finishCycleP {s : Sys} (h : NoRep s) (kept : List (Nat × Ring Cmd)) (buf buf2 : List Cmd) :
+    NoRep (s.finishCycleP kept buf buf2).1 ∧ (s.finishCycleP kept buf buf2).2 = none := by
+  unfold Sys.finishCycleP
+  rw [if_neg (by rw [h.has]; simp)]
+  exact h.finishCycle kept buf buf2
+
 theorem NoRep.withG {s : Sys} (h : NoRep s) (g : Ghost) : NoRep (s.withG g) :=
   ⟨h.ready, h.has, h.spans, h.ads, h.lines⟩
 
@@ -278,7 +284,7 @@ theorem NoRep.cycStep {s : Sys} (h : NoRep s) :
   | some cs =>
     dsimp only
     split
-    · have := h.finishCycle cs.kept cs.buf cs.buf2
+    · have := h.finishCycleP cs.kept cs.buf cs.buf2
       dsimp only
       refine ⟨this.1, fun rs e => ?_⟩
       simp only [Obs.report.injEq] at e
